@@ -254,6 +254,24 @@ def run(E: Engine, rep: Report, tier: str) -> dict:
     ok_off = bool(offs) and bool(comp) and all(any(_sym.contains(o, c) for c in comp) for o in offs)
     rep.check(ok_off, "PASS", "Sequence._process_eom_parameters|validated-off-pulse-is-the-computed-one", "the zero-amplitude pulse that is validated carries the detuning_off chosen by calculate_detuning_off (the value returned for scheduling)", f"the off pulse validated in _process_eom_parameters carries {[_sh(o, 60) for o in offs]}, not the computed detuning_off that is returned and scheduled: an off-detuning beyond max_abs_detuning passes", E.where(pep))
     rep.check(len(vcalls) >= 2, "PASS", "Sequence._process_eom_parameters|validates-on-and-off-pulse", f"{len(vcalls)} validate_pulse calls", "the EOM on/off pulses are no longer both validated", E.where(pep))
+    # a pulse on a DMM is validated against the detuning map configured for that DMM: on the branch taken when a map
+    # was found (`<map> is not None`), that very map is handed to validate_pulse (the default map of
+    # DMM.validate_pulse is a single trap of weight 1)
+    from .symutil import S as _S9b, arg as _arg9b, is_ as _is9b, sh as _sh9b
+
+    Svap = _S9b(E, vap)
+    n_dmm = 0
+    for l in Svap.calls("validate_pulse"):
+        for x in _sym.conj_of(l.cond):
+            m_ = _is9b(x, "Q_map is not None")
+            if m_ is None or not _sym.contains(m_["Q_map"], ("const", "detuning_map")) and not any(t[0] == "attr" and t[2] == "detuning_map" for t in _sym.subterms(m_["Q_map"])):
+                continue
+            n_dmm += 1
+            got = _arg9b(l, 1, "detuning_map")
+            rep.check(got == m_["Q_map"], "PASS", "Sequence._validate_and_adjust_pulse|dmm-pulse-validated-against-its-map", "validate_pulse(pulse, <the DMM's detuning map>)",
+                      f"on the DMM branch validate_pulse is called with detuning_map = `{_sh9b(got, 80) if got is not None else 'nothing'}`: the bottom-detuning limits are then checked against the default one-trap map instead of the map configured on this DMM", E.where(vap, l.node))
+    if n_dmm < 1:
+        raise AnalysisError("anchor: the DMM branch of _validate_and_adjust_pulse (validate_pulse under `<map> is not None`) was not found")
     # enable_eom's buffer pulse: duration through adjust_duration, literal zero amplitude
     en = E.method(SCHED, "enable_eom")
     from .symutil import S as _S9, arg as _arg9, sh as _sh9, unobj as _un9
